@@ -53,6 +53,13 @@ Class(ev, e) ==
    THEN "a non-integer number is accepted where an integer is required"
    ELSE IF e.kind = "Other" /\ Contains(e.msg, "Cannot destructure")
    THEN "a destructuring pattern longer than the elements it binds is accepted"
+   \* a block function / aggregation builds a model expression; where a compile-time value is needed the
+   \* transformer finds none (expected Any, got Undefined)
+   ELSE IF e.kind = "WrongArgument" /\ e.lhs = "Any" /\ e.rhs = "Undefined"
+   THEN "a block function or aggregation is accepted where a compile-time value is required"
+   \* the static kind of an element of a mixed array is Any, which every position accepts
+   ELSE IF Contains(ev.filler, "H1[") /\ e.kind \in {"WrongArgument", "BinOpError", "UnOpError"}
+   THEN "an element of a mixed (Any) array is accepted where a specific kind is required"
    ELSE "type-class error " \o e.kind
 
 Check(ev) ==
